@@ -28,6 +28,7 @@ Feature switches (names listed in ``avoid`` are switched off):
   stmt_call_nonint   helper called as a statement with float/str arguments
   nonint_list_append append()/remove() on a list of floats or strings
   eval_order         side-effecting helper call inside a larger expression (operand order)
+  list_reassign_loop re-assigning a global list inside a loop / the main loop (temporary is leaked)
   double_eval        operand with a side effect (sensor read, helper call) inside a chained comparison,
                      abs(), min() or max() (the firmware evaluates it twice)
 """
@@ -62,6 +63,7 @@ ALL_FEATURES = [
     "stmt_call_nonint",
     "nonint_list_append",
     "eval_order",
+    "list_reassign_loop",
 ]
 
 # no digits: a digit right after a float field would make "2.50"+"7" vs "2.5"+"7" ambiguous for the
@@ -111,6 +113,8 @@ class ProgGen:
         self.in_helper = False
         self.global_names: Dict[str, str] = {}
         self.readonly: Set[str] = set()
+        self.global_lists: Set[str] = set()
+        self.len_safe: Set[str] = set()
 
     # ------------------------------------------------------------ utilities
     def fresh(self, prefix: str) -> str:
@@ -229,6 +233,10 @@ class ProgGen:
             if n in self.mutated_lists and "len_of_mutated" not in self.on:
                 return None
             if "len_of_mutated" not in self.on:
+                # the transpiler folds len(name) from a constant environment that ignores branches and
+                # loops: only names bound once, at top level, to a literal are safe
+                if n not in self.len_safe:
+                    return None
                 self.frozen_len.add(n)
             else:
                 self.features_used.add("len_of_mutated")
@@ -485,7 +493,10 @@ class ProgGen:
                 self.global_names.setdefault(name, other)
             self.probe(depth, env, [name])
             return
-        self.emit(depth, f"{name} = {self.expr(env, typ)}")
+        expr_text = self.expr(env, typ)
+        self.emit(depth, f"{name} = {expr_text}")
+        if typ == "str" and name != existing and depth == 0 and not self.in_helper and expr_text[:1] in "'\"" and expr_text.count(expr_text[0]) == 2 + expr_text.count("\\" + expr_text[0]):
+            self.len_safe.add(name)
         env[name] = typ
         if self.chance(self.opts.probe_rate):
             self.probe(depth, env, [name])
@@ -558,6 +569,9 @@ class ProgGen:
             env[name] = "list"
             self.list_len[name] = n
             self.list_elem[name] = elem
+            if at_global:
+                self.global_lists.add(name)
+                self.len_safe.add(name)
             self.probe(depth, env, [name])
             return
         name = r.choice(lists)
@@ -585,7 +599,7 @@ class ProgGen:
             self.emit(depth, f"{name}[{idx}] = {self.int_expr(env, 2)}")
             self.probe(depth, env, [name])
             return
-        if kind == "reassign" and not frozen and elem == "int" and at_global:
+        if kind == "reassign" and not frozen and elem == "int" and (at_global or (name in self.global_lists and self.feature("list_reassign_loop", 0.8))):
             n = self.list_len[name]
             items = [self.int_expr(env, 2, no_call=True) for _ in range(n)]
             # only legal when the transpiler's tracked length equals n, i.e. never appended
